@@ -38,6 +38,7 @@ class WorldA:
         _client._uid[0] = 0
         self.seams.quiet_logging()
         self.seams.reset_globals(self.cfg.get("tables"))
+        self.seams.install_consts(self.cfg.get("consts"))
         self.seams.install_time(self.clock)
         self.seams.install_random(self.choices.stream("spa.random"))
         self._installed = True
